@@ -29,6 +29,41 @@ type RunConfig struct {
 	Deadline    time.Time
 	AccessLog   bool
 	Trace       bool
+	UsePool     bool // take solvers from the global pool (one per path) instead of one per worker
+}
+
+var pool chan *smt.Solver
+var poolAll []*smt.Solver
+
+// InitPool starts n solver processes shared by all concurrently running harness instances.
+func InitPool(n int, bin string, timeoutMs int) error {
+	pool = make(chan *smt.Solver, n)
+	for i := 0; i < n; i++ {
+		s, err := smt.Start(bin, timeoutMs)
+		if err != nil {
+			return err
+		}
+		poolAll = append(poolAll, s)
+		pool <- s
+	}
+	return nil
+}
+
+func ClosePool() {
+	for _, s := range poolAll {
+		s.Close()
+	}
+	poolAll = nil
+}
+
+// PoolStats returns total queries and solver time of the pool.
+func PoolStats() (int, time.Duration) {
+	q, t := 0, time.Duration(0)
+	for _, s := range poolAll {
+		q += s.Queries
+		t += s.Time
+	}
+	return q, t
 }
 
 type PathSample struct {
@@ -168,16 +203,20 @@ func (pr *Program) Run(cfg RunConfig) *RunResult {
 	stop := false
 
 	worker := func() {
-		s, err := smt.Start(cfg.SolverBin, cfg.TimeoutMs)
-		if err != nil {
-			mu.Lock()
-			res.Aborts = append(res.Aborts, Event{Kind: EvAbort, Label: "solver", Detail: err.Error()})
-			stop = true
-			cond.Broadcast()
-			mu.Unlock()
-			return
+		var s *smt.Solver
+		if !cfg.UsePool {
+			var err error
+			s, err = smt.Start(cfg.SolverBin, cfg.TimeoutMs)
+			if err != nil {
+				mu.Lock()
+				res.Aborts = append(res.Aborts, Event{Kind: EvAbort, Label: "solver", Detail: err.Error()})
+				stop = true
+				cond.Broadcast()
+				mu.Unlock()
+				return
+			}
+			defer s.Close()
 		}
-		defer s.Close()
 		for {
 			mu.Lock()
 			for len(queue) == 0 && active > 0 && !stop {
@@ -193,7 +232,22 @@ func (pr *Program) Run(cfg RunConfig) *RunResult {
 			active++
 			mu.Unlock()
 
-			p, ex, reason := runPath(pr, fn, s, prefix, &cfg)
+			ps := s
+			var q0 int
+			var t0s time.Duration
+			if cfg.UsePool {
+				ps = <-pool
+				q0, t0s = ps.Queries, ps.Time
+			}
+			p, ex, reason := runPath(pr, fn, ps, prefix, &cfg)
+			if cfg.UsePool {
+				dq, dt := ps.Queries-q0, ps.Time-t0s
+				pool <- ps
+				mu.Lock()
+				res.Queries += dq
+				res.SolverTime += dt
+				mu.Unlock()
+			}
 
 			mu.Lock()
 			active--
@@ -260,10 +314,12 @@ func (pr *Program) Run(cfg RunConfig) *RunResult {
 			cond.Broadcast()
 			mu.Unlock()
 		}
-		mu.Lock()
-		res.Queries += s.Queries
-		res.SolverTime += s.Time
-		mu.Unlock()
+		if s != nil {
+			mu.Lock()
+			res.Queries += s.Queries
+			res.SolverTime += s.Time
+			mu.Unlock()
+		}
 	}
 	var wg sync.WaitGroup
 	for i := 0; i < cfg.Workers; i++ {
